@@ -152,4 +152,8 @@ def lifeStep (s : Life) : LifeEv → Life × LifeOut
 
 def lifeRun (s : Life) (evs : List LifeEv) : Life := evs.foldl (fun s e => (lifeStep s e).1) s
 
+/-- `ethnode.encodeNodeID`: geth wants the `enode://` prefix; nothing else of the argument is touched -/
+def hasEnodePrefix (s : String) : Bool := "enode://".toList.isPrefixOf s.toList
+def encodeNodeID (s : String) : String := if hasEnodePrefix s then s else "enode://" ++ s
+
 end Vipnode
